@@ -259,6 +259,7 @@ impl Directive {
                             include_depth: include_depth + 1,
                         };
                         parse_file_internal(&context)?;
+                        include_paths.replace(context.include_paths.into_inner());
                     } else {
                         bail!("wrong format for .include, expected: {} in {}", opts, point,);
                     }
